@@ -122,6 +122,11 @@ def _esc(ch):
 
 # letters whose lower(), upper() and casefold() disagree, or change length (sharp s, ligature fi, micro sign, long s, capital dotted I, final sigma): raw and escaped
 CASE_ODD = ["\xdf", "\ufb01", "\xb5", "\u017f", "\u0130", "\u03a3", "\u1e9e"]
+# an upper-case letter escaped TWICE inside a redirect target (revealed only after the redirection is followed), next to the plain spelling of that target
+NESTED_ESCAPE_PAIRS = [("http://a.com/?url=http%3A%2F%2Fb.com%2F%2549ndex.html", "http://b.com/Index.html"),
+                       ("http://a.com/?u=http%3A%2F%2Fb.com%2Fp%3F%2555TM_source%3Dx", "http://b.com/p?UTM_source=x")]
+# the marker of a cache path spelled with an escaped letter or behind an empty segment
+CACHE_MARKER_SPELLINGS = ["https://x.ampproject.org/%63/s/b.com/x", "https://x.ampproject.org//c/s/b.com/x", "https://x.ampproject.org/c//s/b.com/x"]
 CASE_ODD_PAIRS = [(t % ch, t % _esc(ch)) for ch in CASE_ODD for t in ("http://a.com/stra%se", "http://a.com/p?q=Ma%se", "http://a.com/p?k%s=1", "http://a.com/a#!/gro%s")]
 WRAPS = [("\x08 ", ""), (" \x00", " "), ("\x1b\t", "\x7f "), ("", " \x01"), ("\x00 \x00 ", "")]
 HOSTS_EXTRA = ["fr.a.com", "fr-FR.a.com", "www.fr.a.com", "m.a.com", "amp.a.com", "amp-x.a.com", "a.co.uk", "A.COM:8080", "youtube.com", "www.facebook.com", "fr.facebook.com",
@@ -184,6 +189,7 @@ def main():
             urls.append("http://" + h + tail)
             urls.append(h + tail)
     urls.extend(REDIRECTS)
+    urls.extend(CACHE_MARKER_SPELLINGS)
     if a.tier == "thorough":
         # every extra host under every extra query, tail, wrap and scheme spelling; every redirection hint on every extra host
         for h in HOSTS_EXTRA:
@@ -208,7 +214,7 @@ def main():
     jobs = [(a.tier, a.seed, urls[i:i + size]) for i in range(0, len(urls), size)]
     for part in run_sharded(shard, jobs, a.jobs):
         col.merge(part)
-    for ua, ub in PAIRS + CASE_ODD_PAIRS:
+    for ua, ub in PAIRS + CASE_ODD_PAIRS + NESTED_ESCAPE_PAIRS:
         for o in OPTSETS:
             classes = {}
             check_url(col, ua, o, classes)
